@@ -334,9 +334,21 @@ func (l *log) GetByTime(start time.Time) (message.Message, error) {
 	for i := len(l.readers) - 1; i >= 0; i-- {
 		rdr := l.readers[i]
 
-		switch msg, err := rdr.GetByTime(ts, tctx); err {
+		switch position, first, err := rdr.TimePosition(ts, tctx); err {
 		case nil:
-			return msg, nil
+			// messages with the same time might straddle segments: if the match is the
+			// first message of its segment, the previous ones might end with that time too.
+			// This is decided on the indexes, so only the message that is returned gets read
+			for j := i - 1; j >= 0 && first; j-- {
+				prevPosition, prevFirst, err := l.readers[j].TimePosition(ts, tctx)
+				if err == index.ErrTimeAfterEnd || err == index.ErrTimeBeforeStart || err == index.ErrTimeIndexEmpty {
+					break
+				} else if err != nil {
+					return message.Invalid, err
+				}
+				rdr, position, first = l.readers[j], prevPosition, prevFirst
+			}
+			return rdr.GetAt(position)
 		case index.ErrTimeIndexEmpty:
 			// an empty segment (the head, after its newest messages were deleted), try the rest
 			if i == 0 {
